@@ -30,7 +30,8 @@ TrRegister == IsEvent("Register") /\ Register(Ev.args.c) /\ Match
 TrCallWhenReady == /\ IsEvent("CallWhenReady")
                    /\ CallWhenReady(Ev.args.w, ToSet(Ev.args.deps), Ev.args.f) /\ Match
 TrListenTo == /\ IsEvent("ListenTo")
-              /\ ListenTo(Ev.args.w, ToSet(Ev.args.deps), Ev.args.f) /\ Match
+              /\ ListenTo(Ev.args.w, ToSet(Ev.args.deps), Ev.args.f, ToSet(Ev.args.la)) /\ Match
+TrDrop == IsEvent("Drop") /\ Drop(Ev.args.w) /\ Match
 TrMutate == IsEvent("Mutate") /\ Mutate(Ev.args.f, Ev.args.o, Ev.args.c) /\ Match
 \* JSON arrays -> programs (the dependency set of a cwr operation is a set)
 ProgJ(p) == [i \in 1..Len(p) |-> Op(p[i].k, p[i].c, p[i].w, ToSet(p[i].d))]
@@ -40,7 +41,7 @@ TrGetDeferral == IsEvent("GetDeferral") /\ GetDeferral /\ Match
 TrRelease == IsEvent("Release") /\ Release(Ev.args.o) /\ Match
 TrQuit    == IsEvent("Quit") /\ Quit(Ev.args.re) /\ Match
 
-TrNext == \/ TrRegister \/ TrCallWhenReady \/ TrListenTo \/ TrMutate
+TrNext == \/ TrRegister \/ TrCallWhenReady \/ TrListenTo \/ TrMutate \/ TrDrop
           \/ TrGoUp \/ TrGetDeferral \/ TrRelease \/ TrQuit
 TrSpec == TrInit /\ [][TrNext]_tvars
 
